@@ -288,7 +288,7 @@ func evalC03(c c03Case) (f *Failure, nontrivial bool) {
 				}
 			} else {
 				if replies && len(cs) != 1 {
-					res = fail("reply-delivered", fmt.Sprintf("%s: the peer replied but the callback ran %d times", desc, len(cs)))
+					res = fail("reply-delivered", fmt.Sprintf("%s: the peer replied but the callback ran %d times (request reached the peer at %v; errors reported: %v)", desc, len(cs), received[e.Token], errs))
 				}
 				if !replies && len(cs) != 0 {
 					res = fail("only-the-peers-reply", fmt.Sprintf("%s: nothing was replied but the callback ran (%+v)", desc, cs[0]))
